@@ -457,6 +457,32 @@ def r_map_shape(e, R):
     itv = zips[0].targets[0].id
     g = e.cfg(cf)
     loops = [n for n in func_nodes(cf) if isinstance(n, ast.While)]
+    # the two-argument iter idiom: `for chunk in iter(lambda: tuple(islice(it, chunksize)), ()): yield chunk` -- consecutive cuts of the one
+    # iterator until the first empty one, each yielded unchanged
+    fors = [n for n in func_nodes(cf) if isinstance(n, ast.For)]
+    if not loops and len(fors) == 1 and isinstance(fors[0].iter, ast.Call) and norm(fors[0].iter.func) == "iter" and len(fors[0].iter.args) == 2 \
+            and isinstance(fors[0].iter.args[0], ast.Lambda) and isinstance(fors[0].iter.args[1], ast.Tuple) and not fors[0].iter.args[1].elts:
+        lb = fors[0].iter.args[0].body
+        isl_ = lb.args[0] if isinstance(lb, ast.Call) and norm(lb.func) == "tuple" and len(lb.args) == 1 else None
+        okcut = isinstance(isl_, ast.Call) and norm(isl_.func).endswith("islice") and len(isl_.args) == 2 and isinstance(isl_.args[0], ast.Name) and isl_.args[0].id == itv \
+            and isinstance(isl_.args[1], ast.Name) and isl_.args[1].id == ksz and not fors[0].iter.args[0].args.args
+        oky = isinstance(fors[0].target, ast.Name) and len(fors[0].body) == 1 and isinstance(fors[0].body[0], ast.Expr) and isinstance(fors[0].body[0].value, ast.Yield) \
+            and isinstance(fors[0].body[0].value.value, ast.Name) and fors[0].body[0].value.value.id == fors[0].target.id and not fors[0].orelse
+        if not (okcut and oky) or any(zips[0] is x for x in ast.walk(fors[0])):
+            raise AnalysisError("map pipeline: the chunker uses the two-argument iter() idiom in a shape this rule does not know")
+        R.ok("R-MAP-SHAPE", f"{cf.short}: ONE zip iterator is created, outside the loop (two-argument iter idiom)", e.loc(cf, zips[0]))
+        R.ok("R-MAP-SHAPE", f"{cf.short}: each chunk is tuple(islice(it, chunksize)) of the shared iterator (the callable of iter())", e.loc(cf, fors[0]))
+        R.ok("R-MAP-SHAPE", f"{cf.short}: yields every cut chunk, unchanged (for chunk in iter(...): yield chunk)", e.loc(cf, fors[0]))
+        R.ok("R-MAP-SHAPE", f"{cf.short}: a non-empty chunk is always yielded; the first empty one (the sentinel `()`) ends the generator", e.loc(cf, fors[0]))
+        loops = None
+    if loops is not None and len(loops) != 1:
+        raise AnalysisError("map pipeline: the loop of the chunker is not recognised")
+    if loops is not None:
+        _chunker_while(e, R, cf, g, zips, loops, itv, ksz)
+    _chain_shape(e, R, chain)
+
+
+def _chunker_while(e, R, cf, g, zips, loops, itv, ksz):
     R.check(len(loops) == 1 and not any(zips[0] is x for x in ast.walk(loops[0])), "R-MAP-SHAPE", f"{cf.short}: ONE zip iterator is created, outside the loop", cf.short, norm(zips[0]),
             "the iterables are re-zipped per chunk: every chunk restarts from the first element", e.loc(cf, zips[0]))
     cuts = [n for n in func_nodes(cf) if isinstance(n, ast.Assign) and isinstance(n.targets[0], ast.Name) and any(isinstance(c, ast.Call) and norm(c.func).endswith("islice")
@@ -484,6 +510,9 @@ def r_map_shape(e, R):
         R.check(esc is None and bad is None and loopback is None, "R-MAP-SHAPE", f"{cf.short}: a non-empty chunk is always yielded; the first empty one ends the generator", cf.short,
                 f"if not {cv}: return; yield {cv}", "the chunker stops before the iterables are exhausted (results missing), yields empty chunks forever, or never terminates",
                 e.loc(cf, cut))
+
+
+def _chain_shape(e, R, chain):
     # --- chain: every element of every list, in order
     ch = e.prog.funcs[chain]
     outer = _single([n for n in func_nodes(ch) if isinstance(n, ast.For) and isinstance(n.iter, ast.Name) and n.iter.id == ch.params[0]], "outer loop of the chain")
